@@ -71,7 +71,7 @@ def run(prog, rep):
     # ---- N2 confinement
     rep.rule("C15.N2", "ExecutionConfig's debug fields are read only by add_debug_attrs ×2, CreateGraphNode::{execute,execute_lazy} and the config copy/builders; `lazy` only by execute_into; builders preserve the fields they do not set")
     readers = {k: set() for k in DEBUG_FIELDS + ("lazy",)}
-    for f in prog.fns.values():
+    for f in prog.shape_fns():
         if f.body is None:
             continue
         tr = Tracer(f.body)
